@@ -164,6 +164,15 @@ class SparselyBin(Factory, Container):
         out.contentType = self.contentType
         return out
 
+    def _checkContent(self, other):
+        """Bins of two containers can only be merged if they hold the same kind of aggregator, also when no bin is shared."""
+        if self.contentType != other.contentType:
+            raise ContainerException(
+                f"cannot add {self.name}s because the bin contents differ ({self.contentType} vs {other.contentType})"
+            )
+        if self.value is not None and other.value is not None:
+            self.value + other.value  # raises ContainerException when the bin templates differ in structure
+
     @inheritdoc(Container)
     def __add__(self, other):
         if isinstance(other, SparselyBin):
@@ -175,6 +184,7 @@ class SparselyBin(Factory, Container):
                 raise ContainerException(
                     f"cannot add SparselyBins because origin differs ({self.origin} vs {other.origin})"
                 )
+            self._checkContent(other)
 
             out = SparselyBin(
                 self.binWidth,
@@ -206,6 +216,7 @@ class SparselyBin(Factory, Container):
                 raise ContainerException(
                     f"cannot add SparselyBins because origin differs ({self.origin} vs {other.origin})"
                 )
+            self._checkContent(other)
             self.entries += other.entries
             for i, v in other.bins.items():
                 if i in self.bins:
